@@ -1035,6 +1035,13 @@ func (h *Hashgraph) DecideRoundReceived() error {
 				// it doesn't have any other-parent). If the other nodes have
 				// already processed many rounds (more than the cache-limit),
 				// then they will enter this condition upon looking for round 1.
+				// After a Reset (fastsync), the rounds at or below the
+				// roundLowerBound are not all in the Store either; they are
+				// skipped like the undecided ones below, otherwise such an
+				// Event would never be received by a fast-forwarded node.
+				if h.roundLowerBound != nil && i <= *h.roundLowerBound {
+					continue
+				}
 				break
 			}
 
